@@ -14,6 +14,7 @@ import (
 	"context"
 	"errors"
 	"fmt"
+	"regexp"
 	"sort"
 	"strings"
 	"testing"
@@ -26,6 +27,7 @@ import (
 	"github.com/foxcpp/maddy/framework/exterrors"
 	"github.com/foxcpp/maddy/framework/log"
 	"github.com/foxcpp/maddy/framework/module"
+	_ "github.com/foxcpp/maddy/internal/table"
 	"golang.org/x/net/idna"
 	"golang.org/x/text/unicode/norm"
 	"pgregory.net/rapid"
@@ -33,7 +35,7 @@ import (
 )
 
 var (
-	c04Locals  = []string{"a", "b"}
+	c04Locals  = []string{"a", "b", "ab"}
 	c04Domains = []string{"example.org", "bücher.example", "other.net"}
 )
 
@@ -100,9 +102,12 @@ type c04DstBlock struct {
 }
 
 type c04DstRule struct {
-	Table bool        `json:"table,omitempty"`
-	Keys  []c04Addr   `json:"keys"`
-	Block c04DstBlock `json:"block"`
+	Table bool `json:"table,omitempty"`
+	// the table is the bundled table.regexp in the form the documentation gives for *_in directives: one argument,
+	// an alternation of the (quoted) keys, "acting as a regexp match check"
+	Regexp bool        `json:"regexp_table,omitempty"`
+	Keys   []c04Addr   `json:"keys"`
+	Block  c04DstBlock `json:"block"`
 }
 
 type c04SrcBlock struct {
@@ -117,9 +122,10 @@ type c04SrcBlock struct {
 }
 
 type c04SrcRule struct {
-	Table bool        `json:"table,omitempty"`
-	Keys  []c04Addr   `json:"keys"`
-	Block c04SrcBlock `json:"block"`
+	Table  bool        `json:"table,omitempty"`
+	Regexp bool        `json:"regexp_table,omitempty"`
+	Keys   []c04Addr   `json:"keys"`
+	Block  c04SrcBlock `json:"block"`
 }
 
 type c04Pipe struct {
@@ -239,7 +245,7 @@ func (g *c04G) srcBlock(depth int) c04SrcBlock {
 	}
 	for i := 0; i < n; i++ {
 		tbl := rapid.IntRange(0, 3).Draw(g.t, "dst_table") == 0
-		b.Dsts = append(b.Dsts, c04DstRule{Table: tbl, Keys: g.keys(tbl), Block: g.dstBlock(depth)})
+		b.Dsts = append(b.Dsts, c04DstRule{Table: tbl, Regexp: tbl && rapid.IntRange(0, 2).Draw(g.t, "regexp_table") == 0, Keys: g.keys(tbl), Block: g.dstBlock(depth)})
 	}
 	switch rapid.IntRange(0, 39).Draw(g.t, "dst_default") {
 	case 0:
@@ -264,7 +270,7 @@ func (g *c04G) pipe(depth int) c04Pipe {
 	}
 	for i := 0; i < n; i++ {
 		tbl := rapid.IntRange(0, 3).Draw(g.t, "src_table") == 0
-		p.Srcs = append(p.Srcs, c04SrcRule{Table: tbl, Keys: g.keys(tbl), Block: g.srcBlock(depth)})
+		p.Srcs = append(p.Srcs, c04SrcRule{Table: tbl, Regexp: tbl && rapid.IntRange(0, 2).Draw(g.t, "regexp_table") == 0, Keys: g.keys(tbl), Block: g.srcBlock(depth)})
 	}
 	if rapid.IntRange(0, 29).Draw(g.t, "src_default") == 0 {
 		p.MissingDefault = true
@@ -333,6 +339,18 @@ func c04RenderDst(b c04DstBlock) []config.Node {
 	return nodes
 }
 
+// c04TableArgs: the table of a *_in directive - the harness set table, or table.regexp with one argument.
+func c04TableArgs(re bool, keys []c04Addr) []string {
+	if !re {
+		return append([]string{"verif_set"}, c04KeyArgs(keys)...)
+	}
+	var alts []string
+	for _, k := range keys {
+		alts = append(alts, regexp.QuoteMeta(k.String()))
+	}
+	return []string{"regexp", strings.Join(alts, "|")}
+}
+
 func c04KeyArgs(keys []c04Addr) []string {
 	var out []string
 	for _, k := range keys {
@@ -351,7 +369,7 @@ func c04RenderSrc(b c04SrcBlock) []config.Node {
 	}
 	for _, d := range b.Dsts {
 		if d.Table {
-			nodes = append(nodes, config.Node{Name: "destination_in", Args: append([]string{"verif_set"}, c04KeyArgs(d.Keys)...), Children: c04RenderDst(d.Block)})
+			nodes = append(nodes, config.Node{Name: "destination_in", Args: c04TableArgs(d.Regexp, d.Keys), Children: c04RenderDst(d.Block)})
 		} else {
 			nodes = append(nodes, config.Node{Name: "destination", Args: c04KeyArgs(d.Keys), Children: c04RenderDst(d.Block)})
 		}
@@ -376,7 +394,7 @@ func c04RenderPipe(p c04Pipe) []config.Node {
 	}
 	for _, s := range p.Srcs {
 		if s.Table {
-			nodes = append(nodes, config.Node{Name: "source_in", Args: append([]string{"verif_set"}, c04KeyArgs(s.Keys)...), Children: c04RenderSrc(s.Block)})
+			nodes = append(nodes, config.Node{Name: "source_in", Args: c04TableArgs(s.Regexp, s.Keys), Children: c04RenderSrc(s.Block)})
 		} else {
 			nodes = append(nodes, config.Node{Name: "source", Args: c04KeyArgs(s.Keys), Children: c04RenderSrc(s.Block)})
 		}
